@@ -40,8 +40,8 @@ class LayoutProbe(e2.Probe):
             self.funcs.append("of%d_%s" % (i, fn))
         for i, m in enumerate(bfs):
             for w in range(size_hint // 8):
-                src += ("unsigned long bf%d_%d_%s(void) { union { %s v; unsigned long w[%d]; } u; for (int i = 0; i < %d; i++) u.w[i] = 0; "
-                        "u.v.%s = -1; return u.w[%d]; }\n" % (i, w, fn, tag, size_hint // 8 + 1, size_hint // 8 + 1, m, w))
+                src += ("unsigned long bf%d_%d_%s(void) { union { unsigned long w[%d]; %s v; } u = {0}; "
+                        "u.v.%s = -1; return u.w[%d]; }\n" % (i, w, fn, size_hint // 8 + 1, tag, m, w))
                 self.funcs.append("bf%d_%d_%s" % (i, w, fn))
         self.csrc = src
         self.decl = decl
@@ -126,7 +126,7 @@ def run(chk, tier):
         offs = ["m%d" % i for i, m in enumerate(ms) if m["named"] and not m["is_bf"]]
         bfs = ["m%d" % i for i, m in enumerate(ms) if m["named"] and m["is_bf"]]
         est = sum(max(m["size"], m["req"], 1) + 16 for m in ms) + (at or 0) + 16
-        probes.append(LayoutProbe("layout/gen/%d" % k, "y%d" % k, decl, "%s S%d" % (kw, k), offs, bfs, size_hint=min(256, (est + 7) // 8 * 8)))
+        probes.append(LayoutProbe("layout/gen/%d" % k, "y%d" % k, decl, "%s S%d" % (kw, k), offs, bfs, size_hint=min(96, (est + 7) // 8 * 8)))
     for k, (decl, mems) in enumerate(EXTRA_DECLS):
         tag = decl.split("{")[0].replace("typedef", "").replace("__attribute__((packed))", "").replace("__attribute__((aligned(32)))", "").strip()
         if "X8" in decl:
